@@ -262,6 +262,21 @@ theorem c10_kepler_interaction_steps_reverse {S C : Type} (kepler inter : C → 
   intro s
   simp only [whStep, hhalf, hK, hI]
 
+/-- unsynchronised stepping (`safe_mode = 0`; model `uStep`/`uSync` of WHFast part1/part2/synchronize: the first drift of a
+    step is merged with the pending half drift of the previous one, a synchronisation request does the pending half drift with
+    the current step size): n steps, a synchronisation, the negated step, n steps, a synchronisation return the state and leave
+    nothing pending — given the flow-inverse hypotheses and `kepler(τ/2)∘kepler(τ/2) = kepler(τ)`.  (That every public
+    synchronisation request — `synchronize()`, `integrate(t)` with nothing left to integrate — really does that half drift is
+    checked on the code by the entry-path oracle and by the round trips of the `syncvia` factor.) -/
+theorem c10_unsynchronized_steps_reverse {S C : Type} (kepler inter : C → S → S) (ng half : C → C)
+    (hhalf : ∀ c, half (ng c) = ng (half c))
+    (hK : ∀ c s, kepler (ng c) (kepler c s) = s) (hI : ∀ c s, inter (ng c) (inter c s) = s)
+    (hadd : ∀ c s, kepler (half c) (kepler (half c) s) = kepler c s) (τ : C) (n : Nat) (x : S) :
+    uSync kepler half (ng τ) (iter (uStep kepler inter half (ng τ)) n
+      (uSync kepler half τ (iter (uStep kepler inter half τ) n ⟨x, false⟩))) = ⟨x, false⟩ := by
+  rw [unsafe_eq_safe kepler inter half τ (hadd τ) n x, unsafe_eq_safe kepler inter half (ng τ) (hadd (ng τ)) n,
+    c10_kepler_interaction_steps_reverse kepler inter ng half hhalf hK hI τ n x]
+
 /-- that hypothesis is necessary: if every palindromic splitting is reversed by negating its
     coefficients, then in particular `A(−c) ∘ A(c) = id` for the first flow (the Kepler drift) -/
 theorem c10_flow_inverse_necessary {S C : Type} (A B : C → S → S) (ng : C → C)
